@@ -132,3 +132,36 @@ package mfs
 //@   requires[lock_free] nodeLockFree(fi)
 //@   modifies all
 //@   ensures[lock_released] nodeLockFree(fi)
+
+// ---- C20: what a flush or a close publishes ------------------------------------------------------
+// A descriptor that has not been flushed yet - whether or not anything was written through it: File.Flush
+// and FlushPath work through a fresh one - takes the file's current node from its modifier, installs it
+// in the inode and, on a full sync of a file that is still linked, hands it to the parent directory; none
+// of this while holding the inode's node lock (the parent takes directory locks that a concurrent
+// listing holds while asking the file for its node).
+// (adding a node to the DAG service changes nothing the file layer looks at)
+//@ func iface github.com/ipfs/go-ipld-format.DAGService.Add
+// (the directories' own state is not modelled in these two contracts: telling the parent changes nothing
+// the file layer reads)
+//@ func iface parent.updateChildEntry
+//@ func (*fileDescriptor).flushUp
+//@   prop C20
+//@   arith int-assumed
+//@   requires fi != nil && fi.inode != nil
+//@   requires[lock_free] nodeLockFree(fi.inode)
+//@   modifies all
+//@   ensures[an_unflushed_descriptor_publishes_the_node] err == nil && old(fi.state) != stateFlushed ==> called("call:GetNode#0") && fi.inode.node == res("call:GetNode#0", 0)
+//@   ensures[and_tells_the_parent] err == nil && old(fi.state) != stateFlushed && fullSync && called("call:Load#0") && !res("call:Load#0", 0) ==> called("invoke:updateChildEntry#0")
+//@   ensures[flushed_afterwards] err == nil ==> fi.state == stateFlushed
+//@   ensures[lock_released] nodeLockFree(fi.inode)
+//@   site[parent_told_without_holding_the_node_lock] invoke:updateChildEntry : nodeLockFree(fi.inode)
+// chmod / touch: the same discipline when the new node is handed to the parent
+//@ func (*File).setNodeData
+//@   prop C20
+//@   arith int-assumed
+//@   requires fi != nil
+//@   requires[a_real_node] typeis(fi.node, "*dag.ProtoNode") ==> unbox(fi.node, "*dag.ProtoNode") != nil
+//@   requires[lock_free] nodeLockFree(fi)
+//@   modifies all
+//@   ensures[lock_released] nodeLockFree(fi)
+//@   site[parent_told_without_holding_the_node_lock] invoke:updateChildEntry : nodeLockFree(fi)
